@@ -188,7 +188,7 @@ class Live:
                 time.sleep(0.01)
         while True:
             try:
-                with runner.watchdog(DEADLINE):
+                with runner.watchdog(DEADLINE, wall=6 * DEADLINE):
                     self.Cc('f::.cli("127.0.0.1:%d")' % self.port)
                     self.Cc('d::.clid(f)')
                     if cn(self.Cc('f("1+1")')) == I(2):
@@ -202,7 +202,7 @@ class Live:
     def close(self):
         from klongpy.repl import cleanup_repl
         try:
-            with runner.watchdog(DEADLINE):
+            with runner.watchdog(DEADLINE, wall=6 * DEADLINE):
                 try:
                     self.Cc('.clic(f)')
                 except Exception:       # noqa: BLE001
@@ -212,14 +212,14 @@ class Live:
             pass
         for loops in (self.cl, self.sl):
             try:
-                with runner.watchdog(DEADLINE):
+                with runner.watchdog(DEADLINE, wall=6 * DEADLINE):
                     cleanup_repl(loops)
             except BaseException:       # noqa: BLE001
                 pass
 
     def remote(self, text):
         try:
-            with runner.watchdog(DEADLINE):
+            with runner.watchdog(DEADLINE, wall=6 * DEADLINE):
                 return ('ok', cn(self.Cc(text)))
         except runner.CaseTimeout:
             return ('exc', 'TIMEOUT')
